@@ -32,6 +32,9 @@ func TestC04Sequences(t *testing.T) {
 		h.Exec(0, p, nil, after)
 		return
 	}
+	if run.Shard == 0 {
+		onceDuringShutdown(run)
+	}
 	kinds := []string{"E", "R", "P", "D", "H"} // eligible, rejected, pre-cancelled, pre-expired deadline, cancelled by earlier handler
 	idx := 0
 	maxLen := run.Scale(4, 5)
